@@ -4,11 +4,11 @@ BINARIES = {
 
 SPEC = {
     'level': 'model_checking',
-    'engine': 'E',
+    'engine': 'E+H',
     'technique': 'bounded-exhaustive enumeration of destinations (per 16-bit lane, per byte lane, lane pairs) and of every '
                  'source/destination distance in bands around the +-2 GiB decision boundary; the bytes produced by the real '
                  'emitters are decoded by independent reference decoders and executed by a symbolic micro-interpreter '
-                 '(register values, branch target)',
+                 '(register values, branch target); plus exhaustive histories of patch-handle operations (create/apply/unpatch/restore over 2-3 targets) after each step of which the installed entry bytes are judged the same way',
     'claim': 'for every enumerated destination the amd64 divert / interface-stub / far-return sequences leave RDX == destination '
              '(all 64 bits) and branch through the 8-byte cell at the destination writing no other register (divert sequence '
              'starting with the NOP marker); for every enumerated (from,to) around the decision boundary the rel32 return jump '
@@ -19,8 +19,9 @@ SPEC = {
             'compiled from arch-neutral copies of the working-tree files, regenerated at every check; which temporary register '
             'the arm64 sequences use and whether the far return form is ever needed inside one text segment are recorded, not judged',
     'jobs': [{'bin': 'c15', 'shards': 8, 'sub': 'amd64'},
+             {'bin': 'c15', 'shards': 4, 'sub': 'guards'},
              {'bin': 'c15arm', 'shards': 8, 'sub': 'arm64'}],
-    'rule': 'engine E. (a) destinations: per byte lane all 256 values x 8 lanes x B backgrounds; all pairs of 16-bit lanes at '
+    'rule': 'guards (engine H): every maximal history of New/Apply/Unpatch/Restore over 2 targets up to depth 8 (thorough: 2 targets depth 12, 3 targets depth 11), model-side well-formedness filter, replayed from a pristine image, every target judged after every step (installed bytes through the reference decoder and interpreter, pristine bytes otherwise, and a real call); non-trivial = a sequence is written while another guard exists. engine E. (a) destinations: per byte lane all 256 values x 8 lanes x B backgrounds; all pairs of 16-bit lanes at '
             '{0,1,0x7fff,0x8000,0xffff} x B backgrounds; per 16-bit lane all 65536 values x 4 lanes x B backgrounds '
             '(B = 4 quick: 0, ~0, 0x0123456789abcdef, 0xfedcba9876543210; 8 thorough, plus all 5^4 boundary quadruples); every '
             'destination goes through patch.jmpToFunctionValue, iface.jmpWithRdx and the far form of patch.jmpToOriginFunctionValue '
